@@ -71,6 +71,52 @@ def floats_close(a, b, scale, rtol, atol_rel):
     return abs(a - b) <= rtol * max(abs(a), abs(b)) + atol_rel * scale
 
 
+def _is_zero(tok):
+    return is_float_tok(tok) and f_of_hex(tok) == 0.0   # +0.0 and -0.0
+
+def canon_numbers(line):
+    """drop, from every dual number printed on the line, the variables whose first derivative and whole
+    Hessian row and column are zero (the property treats a missing variable and a zero derivative as the
+    same thing), and the shape counters that depend on them"""
+    t = line.split()
+    out = []
+    i = 0
+    n = len(t)
+    while i < n:
+        tok = t[i]
+        try:
+            if tok == "D" and i + 3 < n and is_float_tok(t[i + 1]) and t[i + 2][0] == "v" and t[i + 3][0] == "d":
+                v = int(t[i + 2][1:]); d = int(t[i + 3][1:])
+                if v == d and i + 4 + 2 * v <= n:
+                    pairs = [(t[i + 4 + 2 * k], t[i + 5 + 2 * k]) for k in range(v)]
+                    if all(is_float_tok(p[1]) for p in pairs):
+                        keep = [p for p in pairs if not _is_zero(p[1])]
+                        out += ["D", t[i + 1]] + [x for p in keep for x in p]
+                        i += 4 + 2 * v
+                        continue
+            if tok == "D2" and i + 5 < n and is_float_tok(t[i + 1]) and t[i + 2][0] == "v" and t[i + 3][0] == "d" \
+                    and t[i + 4][0] == "r" and t[i + 5][0] == "c":
+                v = int(t[i + 2][1:]); d = int(t[i + 3][1:]); r = int(t[i + 4][1:])
+                cs = t[i + 5][1:].split("-")
+                if v == d == r and all(int(c) == v for c in cs):
+                    j = i + 6
+                    if j + 2 * v < n + 1 and (j + 2 * v < n and t[j + 2 * v] == "|") and j + 2 * v + 1 + v * v <= n:
+                        pairs = [(t[j + 2 * k], t[j + 1 + 2 * k]) for k in range(v)]
+                        h = t[j + 2 * v + 1: j + 2 * v + 1 + v * v]
+                        if all(is_float_tok(p[1]) for p in pairs) and all(is_float_tok(x) for x in h):
+                            keepi = [k for k in range(v) if not (_is_zero(pairs[k][1]) and
+                                     all(_is_zero(h[k * v + m]) and _is_zero(h[m * v + k]) for m in range(v)))]
+                            out += ["D2", t[i + 1]] + [x for k in keepi for x in pairs[k]] + ["|"] + \
+                                   [h[a * v + b] for a in keepi for b in keepi]
+                            i = j + 2 * v + 1 + v * v
+                            continue
+        except (ValueError, IndexError):
+            pass
+        out.append(tok)
+        i += 1
+    return " ".join(out)
+
+
 def compare_lines(impl, model, mode, rtol=1e-9, atol_rel=1e-12):
     """True iff the two answer lines agree under the comparison rule `mode`
     ('exact' | 'close')."""
@@ -86,7 +132,8 @@ def compare_lines(impl, model, mode, rtol=1e-9, atol_rel=1e-12):
                 if not (is_float_tok(a) and is_float_tok(b)):
                     return False
                 fa, fb = f_of_hex(a), f_of_hex(b)
-                if not (math.isnan(fa) and math.isnan(fb)):
+                # two NaNs are one answer; so are +0.0 and -0.0 (no property speaks about the sign of zero)
+                if not ((math.isnan(fa) and math.isnan(fb)) or (fa == 0.0 and fb == 0.0)):
                     return False
         return True
     ti, tm = impl.split(), model.split()
@@ -238,11 +285,14 @@ def last_differs(lines, cfg, scratch):
     op = lines[-1].split()
     if il[n - 1] == "bad-op" or ml[n - 1] == "bad-op":
         return False  # a definition the failing line needs was removed: not a reproduction
+    a, b = il[n - 1], ml[n - 1]
+    if cfg.semantic_names:
+        a, b = canon_numbers(a), canon_numbers(b)
     if cfg.compare_op:
-        r = cfg.compare_op(op, il[n - 1], ml[n - 1])
+        r = cfg.compare_op(op, a, b)
         if r is not None:
             return not r
-    return not compare_lines(il[n - 1], ml[n - 1], cfg.mode_for(op), cfg.rtol, cfg.atol_rel)
+    return not compare_lines(a, b, cfg.mode_for(op), cfg.rtol, cfg.atol_rel)
 
 
 def shrink(prefix, failing, cfg, scratch, budget_s=60):
@@ -379,6 +429,8 @@ def check(prop, tier, seed):
                                            ml.rstrip("\n") or "<no answer: process ended>"))
                         break
                     il = " ".join(il.split()); ml = " ".join(ml.split())
+                    if cfg.semantic_names:
+                        il, ml = canon_numbers(il), canon_numbers(ml)
                     toks = op.split()
                     if not toks:
                         continue
@@ -416,7 +468,14 @@ def check(prop, tier, seed):
         # 5. verdicts
         all_lines = None
         seen_keys = set()
+        corr_only = []
         for (n, op, il, ml) in mismatches:
+            if cfg.correspondence_only and cfg.correspondence_only(op.split(), il, ml):
+                # the model and the code disagree on an observable the property does not determine (wire
+                # bytes, accept/reject of a malformed document): the correspondence is broken, which is not
+                # by itself a violation - the oracles of this run are the search for a failing input
+                corr_only.append((n, op, il, ml))
+                continue
             key = cfg.finding_key(op.split(), il, ml)
             if key in seen_keys:
                 continue
@@ -466,6 +525,28 @@ def check(prop, tier, seed):
                                 ["(definition)"] * len(prefix) + ["(model-free oracle)"],
                                 ["implementation output rejected by the model-free oracle: %s" % why])
             violations.append((path, ""))
+        if corr_only and not violations:
+            n, op, il, ml = corr_only[0]
+            if all_lines is None:
+                all_lines = open(os.path.join(scratch, "ops.txt")).read().splitlines()
+            prefix = [l for l in all_lines[:n] if cfg.is_def(l.split())]
+            for i in range(len(prefix) - 1, -1, -1):
+                if prefix[i].strip() == "reset":
+                    prefix = prefix[i + 1:]
+                    break
+            keep, repro = shrink(prefix, op, cfg, scratch)
+            lines = keep + [op]
+            il2, ml2, _, _ = run_lines(lines, scratch)
+            path = write_replay(prop, seed, lines, il2, ml2,
+                                ["the correspondence between model and implementation no longer checks on %d line(s) "
+                                 "(first: op line %d); the disagreeing observable is not determined by the property "
+                                 "(it belongs to the model: wire bytes / acceptance of a malformed document)" % (len(corr_only), n),
+                                 "search for a failing input: the model-free oracles of this run judged %d evaluations "
+                                 "of the implementation and rejected none" % stats["evaluations"],
+                                 "so no input is known on which the property fails; it is no longer SHOWN to hold"],
+                                name="correspondence_broken")
+            violations.append((path, "no-failing-input-found"))
+        cov["correspondence_only_mismatches"] = len(corr_only)
         if failed_ths:
             # a proof obligation no longer checks; was a failing input found?
             names = ", ".join(t["name"] for t in failed_ths)
@@ -535,6 +616,8 @@ def replay(path):
             a = il[i] if i < len(il) else "<no answer>"
             b = ml[i] if i < len(ml) else "<no answer>"
             same = None
+            if cfg and cfg.semantic_names:
+                a, b = canon_numbers(a), canon_numbers(b)
             if cfg and cfg.compare_op:
                 same = cfg.compare_op(op.split(), a, b)
             if same is None:
